@@ -4,10 +4,16 @@ package checks
 import (
 	"encoding/json"
 	"fmt"
+	"strings"
+	"sync"
 	"sync/atomic"
 	"time"
 
+	"github.com/huderlem/poryscript/lexer"
+	"github.com/huderlem/poryscript/token"
+
 	"pmc/internal/comp"
+	"pmc/internal/dict"
 	"pmc/internal/harness"
 	"pmc/internal/machine"
 	"pmc/internal/model"
@@ -139,3 +145,34 @@ func firstLine(s string) string {
 }
 
 var _ = atomic.AddInt64
+
+// dictIdents returns the identifier-like literals of the compiler's own source that the real lexer reads as one
+// IDENT token (keywords are excluded by the lexer itself), plus a few spellings built from them. They are used
+// as names and values in the dictionary sweeps of several checks.
+var dictIdentsOnce sync.Once
+var dictIdentsList []string
+
+func dictIdents() []string {
+	dictIdentsOnce.Do(func() {
+		seen := map[string]bool{}
+		add := func(w string) {
+			if seen[w] {
+				return
+			}
+			l := lexer.New(w)
+			t := l.NextToken()
+			if t.Type == token.IDENT && t.Literal == w && l.NextToken().Type == token.EOF {
+				seen[w] = true
+				dictIdentsList = append(dictIdentsList, w)
+			}
+		}
+		for _, w := range dict.Identifiers(dict.Load(repoDir()), 24) {
+			add(w)
+			add(strings.ToUpper(w))
+			add(strings.ToLower(w))
+			add(w + "_0")
+			add("_" + w)
+		}
+	})
+	return dictIdentsList
+}
